@@ -46,11 +46,11 @@ REMARK = {
 "C06": """The model is a *step machine* mirroring `matchFuncCall`: Backup, Enter (arity + inference on the current arguments, bind stored), Step (one argument against one parameter; rewrites `init0/init1` through `T_Init__k`, `inst` for a generic function value, `narrow` for a single-candidate overloaded value - the narrowing also happens when the match fails), Fail (restore), Succeed. Invariants FirstApplicable / NoResidue / ResultType compare the machine with the functional definition; `Restore = FALSE` must violate them (run on every invocation). Named deviations of the implementation are parameters of the functional definition (`d = TRUE`), so that a failing point that equals the deviation's prediction is attributed to KF-C06-1..3 and everything else is a violation. A hand mutant (dropping `restoreArgs` in the function loop) is caught. Realisations: imported functions, value / pointer receiver methods, interface methods, an `XGoo_` ordered family (names in reverse lexical order), an in-package family (`NewOverloadFunc`), and the overloaded binary operator (`x + arg` with methods `XGo_Add__i`) for families of one-operand signatures. **Round 2:** long threshold families (1-12 members, base-36 member suffixes, blank `XGoo_` slots) and the *retry* realisation (an accepted call repeated after a call that no candidate accepts, through the same callee element) were added after two seeded changes slipped through.""",
 "C07": """The first version of the fragment agreed with go/types on all 21 184 points at the first run; three later disagreements refined the model (explicit type arguments are never re-bound to a defined type; a bare unary/`StarExpr` etc. are not part of it). The replay found the variadic-adapter defect at once (fixed, 0deb63f). Function values (`InferFV`: parameters *and* results of the generic function unified exactly with the expected function type), `f(xs...)` calls and the type-as-parameter realisation (`XGox_` functions called as `F(T1, args..)`) were added after the seeded changes for C07 were missed; they exposed two more defects (183f873, b42d3c6). **Round 2:** `InferPV` (an explicitly instantiated function used as a plain value: only core types can supply the rest, every type argument is checked) and signature 18 `Gather[T, U any](u U, xs ...T)` (explicit-only variadic element parameter next to an inferred one) were added after two seeded changes slipped through.""",
 "C08": """Select.tla was validated against `types.LookupFieldOrMethod` on every lookup (S = T). Replayed: `MemberVal`, `MemberRef`, method expressions `(T).m` / `(*T).m`, with addressable / non-addressable / pointer operands. **Round 2:** two more realisations of every graph - types with equal field lists sharing one struct object (`type B A`), and delay-loaded types whose underlying type and methods arrive through `Config.LoadNamed` at the first lookup - were added after two seeded changes slipped through.""",
-"C09": """Histories are replayed with `go/types` on every written file (imports exactly the used packages, names unique, no collision with declared names, references resolve to the intended package). Failing histories are delta-debugged (operations removed, arguments simplified) to a minimal witness whose *shape* is the finding key; five root causes are known findings, two were fixed. **Round 2:** `Visit` (a whole declaration made in the other file between `SetCurFile` and `RestoreCurFile`) and `RefAt` (references from ten syntactic positions, e.g. the key of a map literal) were added after two seeded changes slipped through: `RestoreCurFile` had only been used inside `Cross`, all of whose histories fall under KF-C09-1, and every reference had been a call statement or a variable type.""",
-"C10": """S (Flow.tla's Term/TermList/HasBreak transcription and label counters) = T (go/types diagnostics on an independent rendering) on every body, else exit 2. Compared with the builder: number of `missing return`, unused labels, duplicate labels. Forward gotos were added with C02.""",
+"C09": """Histories are replayed with `go/types` on every written file (imports exactly the used packages, names unique, no collision with declared names, references resolve to the intended package). Failing histories are delta-debugged (operations removed, arguments simplified) to a minimal witness whose *shape* is the finding key; five root causes are known findings, two were fixed. **Round 2:** `Visit` (a whole declaration made in the other file between `SetCurFile` and `RestoreCurFile`) and `RefAt` (references from ten syntactic positions, e.g. the key of a map literal) were added after two seeded changes slipped through: `RestoreCurFile` had only been used inside `Cross`, all of whose histories fall under KF-C09-1, and every reference had been a call statement or a variable type. A further position (`tparam`: the constraint of a type parameter) exposed a genuine defect - the used-import scan did not walk type parameter lists - repaired in 4987ba8.""",
+"C10": """S (Flow.tla's Term/TermList/HasBreak transcription and label counters) = T (go/types diagnostics on an independent rendering) on every body, else exit 2. Compared with the builder: number of `missing return`, unused labels, duplicate labels. Forward gotos were added with C02. **Round 2:** configuration `for-if-else-break-9` (condition-less `for`, `if` / `else if` chains, `break`) was added after a seeded change to `hasBreak` (else-if arms not searched) slipped through: no configuration had combined the three with enough operations.""",
 "C11": """R1-R6 are compared structurally (typed canonical tree of the emitted declaration vs the reference lowering rendered as Go; for the `any` member rule after inlining the hoisted `_autoGo_k` temporaries, plus the placement predicate for loop conditions). R5 is judged by value: the emitted construction (`big.NewInt`, `SetString`, `NewRat`, `SetFrac`, wrapped by init functions) is evaluated with math/big. R7 (user-defined range enumerators: iterator-function and `Next()` styles, pointer and value iterators, receivers that Go could range over natively, every loop-variable form, bodies with `break`) and R8 (inline closure calls: 0-2 parameters, variadic with 0-2 extra arguments, 0-2 results, plain / early-return / unused-parameter / mutating bodies) are judged by **execution**: the emitted functions and hand-written plain-Go references (a real range loop over the enumerated sequence, a real closure call) are compiled into one program with instrumented operands and run under three condition schedules; their traces (evaluation order, bound values, results, final values of assigned variables) must be equal. For assignment-form loop variables over `Next()` enumerators the reference is the documented loop (the final failing `Next()` overwrites the variable), not Go's native range.""",
-"C12": """Part A (Print.tla) is specification-decided: tokens, indispensable blanks, lexer and parser are all in TLA+ and TLC proves the round trip on every enumerated tree; the forked printer must produce that token stream. Part B compares the tree the package holds (`Package.ASTFile`) with the tree parsed from `Package.WriteTo`, and runs Headers.tla's placements (builder-side parentheses). Part C (Comments.tla) models emission order - an `if`/`for` statement is emitted at `End`, after the statements of its body, an if-initialiser when it is complete - so that the model, not the test author, says which statement a comment belongs to; the package is written twice. Part D (not specification-derived) prints position-stripped standard-library files.""",
-"C13": """TLC checks `Parse(Tokens(t)) = t` over the bounded type grammar; `NoParens = TRUE` reproduces the `chan (<-chan T)` defect (fixed, 7fa8cc5). Each term is declared through the builder in every syntactic position across two files, written, re-checked, and the type read back is compared with the original. Instantiated generic types (`G[T]`, `ax.G[T]`, `P2[K, V]`) are constructors of the grammar (tokens, parser, realisation through `Package.Instantiate` / `types.Instantiate`), so type arguments nest arbitrarily with the other constructors.""",
+"C12": """Part A (Print.tla) is specification-decided: tokens, indispensable blanks, lexer and parser are all in TLA+ and TLC proves the round trip on every enumerated tree; the forked printer must produce that token stream. Part B compares the tree the package holds (`Package.ASTFile`) with the tree parsed from `Package.WriteTo`, and runs Headers.tla's placements (builder-side parentheses). Part C (Comments.tla) models emission order - an `if`/`for` statement is emitted at `End`, after the statements of its body, an if-initialiser when it is complete - so that the model, not the test author, says which statement a comment belongs to; the package is written twice. Part D (not specification-derived) prints position-stripped standard-library files. **Round 2:** configuration `compact-mode-depth3` (the printer's compact mode below an index and in mixed-precedence expressions: `x[x] + x & ^x`) and part E, TypeParams.tla (type parameter lists of generic type declarations: the trailing comma of `[P *int | string,]`, validated against go/parser), were added after two seeded changes slipped through.""",
+"C13": """TLC checks `Parse(Tokens(t)) = t` over the bounded type grammar; `NoParens = TRUE` reproduces the `chan (<-chan T)` defect (fixed, 7fa8cc5). Each term is declared through the builder in every syntactic position across two files, written, re-checked, and the type read back is compared with the original. Instantiated generic types (`G[T]`, `ax.G[T]`, `P2[K, V]`) are constructors of the grammar (tokens, parser, realisation through `Package.Instantiate` / `types.Instantiate`), so type arguments nest arbitrarily with the other constructors. **Round 2:** interface methods now carry signatures (`Printf(T, ...U)`, `Get(T) (U, T)`) in the grammar, the parser of TypeSyntax.tla and the comparison of read-back types; and every term naming an imported type is also declared as the type of a *local* variable after local types named like the imports (`type x int; type x1 = int`) - added after two seeded changes slipped through.""",
 "C14": """Zero.tla states the two demands on a synthesised zero value (accepted where a T is expected; static type exactly T in an inferred position), proves satisfiability for every type of the universe and evaluates the form the implementation chooses (`ImplForm`), thereby *predicting* the deviation class `UntypedZeroForm` (KF-C14-1); the named-struct/array case was fixed (da1024a). Users replayed: `ZeroLit`, `T()`, `ReturnErr`, `ReturnErr(outer)`, omitted optional arguments, each also after operand-rewriting pre-steps (the cached zero element must not be mutated).""",
 "C15": """Determinism.tla is a self-composition: two builds of the same program with free iteration-order choices for every map-backed collection; `Sorted[c] = FALSE` must produce a counterexample. Replay: K = 25 in-process builds plus builds in child processes (map seeds differ per process), files rendered through `ForEachFile`.""",
 "C16": """History entries `<<op, arg, len, scope, sdepth, fn, labels, invb>>` are compared after *every* step with the real builder's projected state (stack length, scope identity and depth, current function, visible labels). `Leak = TRUE` is the sabotage guard. The former known finding KF-C16-1 (inline-closure base) disappeared with fix 4acf71e; the model had always described the sane behaviour. **Trace validation**: `Blocks.tla` / `BlockTrace.tla` check executions of the repository's *own* tests (recorded through the `verifTrace` hook at `startBlockStmt` / `endBlockStmt`) against the frame discipline; the first version rejected a white-box test that opens an `if` outside any function (the scope depth outside the outermost construct is not recorded: relaxed for the outermost frame only) and tests of error paths, which misuse the protocol on purpose (skipped by name).""",
